@@ -934,7 +934,9 @@ impl Client {
                 let (Some(_sid), Some(pk), Some(tok), Some(auth)) = (c.string(), c.bytes(), c.bytes(), c.bool()) else {
                     return bad("EncryptionRequest");
                 };
-                let server = pk == *passage_protocol::crypto::ENCODED_PUB;
+                // "server": a usable RSA public key (the client can encrypt to it); which process-wide key object it comes from is the
+                // implementation's business -- that it is the SAME key the session service is asked with is judged through seen_pub
+                let server = RsaPublicKey::from_public_key_der(&pk).is_ok();
                 {
                     let mut st = STALE_TOKEN.lock().unwrap();
                     if st.is_none() {
@@ -1550,7 +1552,6 @@ pub fn main_timed(args: &[String]) {
     let text = std::fs::read_to_string(input.expect("--in")).expect("read input");
     let recs: Vec<Value> = text.lines().filter(|l| !l.trim().is_empty()).map(|l| serde_json::from_str(l).expect("json")).collect();
     std::panic::set_hook(Box::new(|_| {}));
-    let _ = passage_protocol::crypto::ENCODED_PUB.len();
     let recs = Arc::new(recs);
     let recs2 = recs.clone();
     let r = crate::pool::run_pool(
@@ -1649,7 +1650,6 @@ pub fn main(args: &[String]) {
     }
     std::panic::set_hook(Box::new(|_| {}));
     // warm up the server key pair and obtain a verify token from another connection (for "staleToken")
-    let _ = passage_protocol::crypto::ENCODED_PUB.len();
     let warm = json!({"hist": [{"secret": "none", "rc": {"ip": "first"}, "obs": [
         {"e": "rx", "f": {"k": "Handshake", "next": "Login"}},
         {"e": "rx", "f": {"k": "LoginStart", "who": "claimed"}},
